@@ -559,6 +559,38 @@ class C09(PropertyCheck):
                                        key_in, "disjoint", "shared")
         return None
 
+    def wrapper_stream_oracle(self):
+        """dataset layers that draw themselves per sample without a configured seed (KDMixWrapper, MUGSMultiViewWrapper):
+        the draws must come from the worker's global state: equal worker seeds reproduce them, different seeds do not"""
+        from kappadata.wrappers import KDMixWrapper
+        from kappadata.common.wrappers.sample_wrappers.mugs_multi_view_wrapper import MUGSMultiViewWrapper
+        recipes = [
+            ("mix-unseeded", lambda: KDMixWrapper(make_ds("tensor"), mixup_p=1.0, mixup_alpha=1.0), lambda w, i: w.getitem_xclass(i)[1]),
+            ("mugs-unseeded", lambda: MUGSMultiViewWrapper(make_ds("pil"), global_size=16, local_size=8, num_local_crops=2),
+             lambda w, i: (lambda c: (w.getitem_x(i, ctx=c), c)[1])({})),
+        ]
+        out = []
+        for label, build, get in recipes:
+            def run(ws):
+                st = build()
+                np.random.seed(ws)
+                torch.manual_seed(ws)
+                st.worker_init_fn(0, **WI_KW)
+                return [canon(get(st, i)) for i in range(4)]
+            try:
+                a, b, c = run(41), run(41), run(42)
+            except Exception as e:
+                out.append(Failure(f"worker:{label}:exception", f"{label}: {type(e).__name__}: {e}", {"recipe": label}, None, str(e)))
+                continue
+            if a != b:
+                out.append(Failure(f"worker:{label}:not-reproducible", f"{label}: the layer's own per-sample draws differ between two workers with the "
+                                   "same worker seed (generator not derived from the worker's global state)", {"recipe": label, "wrapper_stream": True},
+                                   "equal", "differ"))
+            elif a == c:
+                out.append(Failure(f"worker:{label}:shared-stream", f"{label}: the layer's own per-sample draws are identical for different worker seeds",
+                                   {"recipe": label, "wrapper_stream": True}, "differ", "equal"))
+        return out
+
     def real_worker_oracle(self, label, build):
         from torch.utils.data import DataLoader, Dataset
         key_in = {"recipe": label, "real_workers": True}
@@ -671,6 +703,10 @@ class C09(PropertyCheck):
                     f = self.oracle(label, build, ws, nw)
                     if f is not None and not any(g.key == f.key for g in res.failures):
                         res.failures.append(f)
+        for f in self.wrapper_stream_oracle():
+            res.failures.append(f)
+        res.cases += 2
+        res.bump("wrapper-level-streams", 2)
         if self.tier == "thorough":
             for label, build in R:
                 if label == "interleaved-concat":
@@ -697,6 +733,8 @@ class C09(PropertyCheck):
         return out
 
     def replay_input(self, inp):
+        if inp.get("wrapper_stream"):
+            return next((f for f in self.wrapper_stream_oracle() if f.input.get("recipe") == inp.get("recipe")), None)
         for label, build in stack_recipes():
             if label == inp.get("recipe"):
                 return self.oracle(label, build, inp.get("worker_seeds", [7, 8, 7]), inp.get("num_workers"))
